@@ -49,6 +49,9 @@ class Harness:
         from . import theory_misc
 
         theory_misc.install(self.interp.theories, self.interp)
+        from . import theory_seq
+
+        theory_seq.install(self.interp.theories, self.interp)
         from . import values
 
         values.PC_PROVIDER[0] = lambda: self.interp.ctx.pc
